@@ -201,7 +201,7 @@ def g_type(rng, depth, cfg=None, top=True):
         return (k,)
     if k == 'std':
         return ('std', rng.choice(['decimal', 'fraction', 'datetime', 'date', 'time', 'path', 'pathlike', 'pattern', 'pattern_str', 'pattern_bytes']
-                                  + (['enum_tuple'] * 3 + ['vol_int', 'vol_tuple', 'vol_tuple', 'vol_list', 'vol_list'] if (cfg or {}).get('enum_tuple') else [])))
+                                  + (['enum_tuple'] * 3 + ['enum_complex', 'enum_complex', 'enum_limit', 'enum_limit'] + ['vol_int', 'vol_tuple', 'vol_tuple', 'vol_list', 'vol_list'] if (cfg or {}).get('enum_tuple') else [])))
     if k == 'seq':
         return ('seq', rng.choices(['list', 'tuple', 'set', 'frozenset'], [4, 3, 1.2, 0.8])[0], g_type(rng, depth - 1, cfg, False))
     if k == 'tuple':
@@ -343,6 +343,7 @@ def g_valid(rng, term, depth=3):
                 'pattern': ['a+b', '(', 'a{4294967296}', '[a-z]*', ''], 'pattern_str': ['a+b', '(', '\\d+'],
                 'pattern_bytes': [b'a+', b'(', b'x'],
                 'enum_tuple': [[1, 2], (3, 4), [[1], [2]], [1, [2]], [1, 2, 3], 5, 'x', [1, 2.0], [True, 2], [{}, 2], []],
+                'enum_complex': [1j, 2j, 0, -1j, 'x', 1, [1j]], 'enum_limit': [['limit', None], ['limit', 2], ('limit', 1), 'x', ['limit'], ['limit', 'a']],
                 'vol_int': [5, [1, 2], [], 'x', [1, 'x'], 2.5, (3,)],
                 'vol_tuple': [[1, 2], [[1, 2], [3, 4]], (5, 6), [1], [1, 2, 3], 'x', [[1, 2], [3]], [1, 'x']],
                 'vol_list': [[1, 2], [[1], [2, 3]], [], 5, [[1], 'x'], [1, [2]]],
